@@ -377,9 +377,9 @@ func checkC16(tier string) {
 	c := newCtx("C16", tier, "fc")
 	pkgAllFoi = mustRead(filepath.Join(c.B.Repo, "pkg", "pkg_all.foi"))
 	pools := [][]*Program{append(corpusSamples(c.B.Repo), corpusTool(c.B.Repo)), corpusSnippets(c.B.Repo), c05HandCorpus()}
-	n := 2500
+	n := 20000
 	if tier != "quick" {
-		n = 120000
+		n = 400000
 	}
 
 	// pass 1: fault-free twins (controls). They fix the tick budget and tell where faults can land.
